@@ -195,8 +195,16 @@ func (w *world) opInsert(t *inst, op Op) {
 	var root util.Key
 	var err error
 	w.faultMark()
-	if w.guard(fmt.Sprintf("Insert(%q)", p), func() { root, err = t.mpt.Insert(util.Path(p), val(v)) }) {
+	arg := val(append([]byte{}, v...))
+	if w.guard(fmt.Sprintf("Insert(%q)", p), func() { root, err = t.mpt.Insert(util.Path(p), arg) }) {
 		return
+	}
+	if w.s.Scribble && len(arg.Buffer) > 0 && len(arg.Buffer) < 1<<20 {
+		// the value object passed to Insert stays the caller's: it refills it for its next write
+		for i := range arg.Buffer {
+			arg.Buffer[i] ^= 0x33
+		}
+		w.stats.Inc("fault.scribble-on-inserted-value")
 	}
 	if err != nil && (w.faultHit() || t.degraded) {
 		t.degraded = true
